@@ -8,9 +8,11 @@ package rlwe
 // kernelmod(q): the precondition on a modulus under which the ring kernels (ring/zz_contracts_verif.go)
 // and the lazy NTT schedule (values up to 8q must fit in 64 bits) were verified.
 //@ spec kernelmod(q) = q < 1<<61 && ring.isprime(q)
-// P moduli: LogP = 61 requests (used by the shipped bootstrapping sets) generate primes just above 2^61,
-// so only p < 2^62 can be required of an accepted literal; see DESIGN.md (findings, F1b).
-//@ spec kernelmodP(p) = p < 1<<62 && ring.isprime(p)
+// P moduli: the kernels were verified for the same range.  CheckModuli accepts P moduli of up to 62
+// bits (LogP = 61 requests of the bootstrapping sets generate primes just above 2^61 by alternating
+// around 2^61): the second postcondition below therefore does NOT hold; it is the known finding
+// KF4 of /verif/known_findings.json (failing input: P = {4611686018427322369}, INTT(NTT(a)) != a).
+//@ spec kernelmodP(p) = p < 1<<61 && ring.isprime(p)
 
 //@ func CheckModuli
 //@   property C19
